@@ -23,6 +23,7 @@
 import Golib.Tcp.Drain
 import Golib.Tcp.WireLink
 import Golib.Tcp.Histories
+import Golib.Tcp.Dial
 
 namespace C06
 open Tcp
@@ -612,5 +613,61 @@ example : (run cfgQueueFixed threeBytes scheduleQueue init).map (fun s => (s.res
     some ([(4, true), (3, false), (2, true), (1, true)], [], none) := by decide
 /-- a Put cannot be refused while there is room (C11's rule, not "may refuse at any time") -/
 example : run cfgQueueFixed threeBytes [.setCapacity 2, .enqueue 1 1, .enqueueFail 1 2] init = none := by decide
+
+/-! ### the server list: "the client reconnects" whenever one collector of the list is up
+
+  The action machine takes the outcome of a dial (`connectOk` / `connectFail`) from the environment.
+  `Tcp.connectList` (Golib.Tcp.Dial) is `Connect()`'s loop over `this.Servers` with time: every server
+  is given the full `Timeout`; a server can accept after `d` time units, refuse at once, or never
+  answer.  The theorems say which of the two outcomes the environment may give. -/
+
+/-- `Connect()` connects to the first server of the list that answers within `Timeout` — for every
+    list, every `Timeout`, every time of day -/
+theorem connect_reaches_first_live (T : Nat) (servers : List Srv) (now : Nat) :
+    (connectList T servers now 0).1 = firstLive T servers :=
+  connect_is_firstLive T servers now
+
+/-- … exactly: it reports server `k` iff `k` answers within `Timeout` and no server before `k` does -/
+theorem connect_first_live_spec (T : Nat) (servers : List Srv) (now k : Nat) :
+    (connectList T servers now 0).1 = some k ↔
+      (∃ s, servers[k]? = some s ∧ s.live T = true) ∧ ∀ j, j < k → ∀ s, servers[j]? = some s → s.live T = false := by
+  rw [connect_is_firstLive]; exact firstLive_some_iff T servers k
+
+/-- "could not connect to any server" iff no server of the list answers within `Timeout` -/
+theorem connect_fails_iff_none_live (T : Nat) (servers : List Srv) (now : Nat) :
+    (connectList T servers now 0).1 = none ↔ ∀ s ∈ servers, s.live T = false := by
+  rw [connect_is_firstLive]; exact firstLive_none_iff T servers
+
+/-- **Any number of dead servers, dead in any way, before a live one**: the live one is reached.
+    (`pre` may refuse, may never answer, may answer too late — each costs at most `Timeout`, none
+    takes anything away from the servers behind it.) -/
+theorem live_behind_dead_is_reached (T : Nat) (pre post : List Srv) (s : Srv) (now : Nat)
+    (hpre : ∀ x ∈ pre, x.live T = false) (hs : s.live T = true) :
+    (connectList T (pre ++ s :: post) now 0).1 = some pre.length := by
+  rw [connect_first_live_spec]
+  refine ⟨⟨s, by simp, hs⟩, ?_⟩
+  intro j hj x hx
+  rw [List.getElem?_append_left hj] at hx
+  exact hpre x (List.mem_of_getElem? hx)
+
+/-- the call returns within `length × Timeout` -/
+theorem connect_time_bound (T : Nat) (servers : List Srv) (now : Nat) :
+    now ≤ (connectList T servers now 0).2 ∧ (connectList T servers now 0).2 ≤ now + servers.length * T :=
+  connectList_time T servers now 0
+
+/-- Counterexample class for one dial deadline shared by the whole list (`now + Timeout` computed once
+    before the loop): a first server that never answers uses the budget up; no server behind it is
+    reached, however healthy — the client never reconnects although a collector of its list is up. -/
+theorem finding_sharedBudget (T : Nat) (rest : List Srv) (now : Nat) :
+    interpDial { assumedDialLoop with budget := .shared } T (.gone :: rest) now = (none, now + T) :=
+  shared_budget_loses _ rfl rfl rfl T rest now
+
+/-- non-vacuity: [gone, refused, up 2, up 0] with Timeout 5 — server 2 is reached at time 5 + 0 + 2;
+    a server that answers only after the Timeout is passed over; with the shared deadline nothing is reached -/
+example : connectList 5 [.gone, .refused, .up 2, .up 0] 0 0 = (some 2, 7) := by decide
+example : connectList 5 [.up 9, .gone, .up 4] 100 0 = (some 2, 114) := by decide
+example : connectList 5 [.gone, .refused, .up 5] 0 0 = (none, 10) := by decide
+example : interpDial { assumedDialLoop with budget := .shared } 5 [.gone, .refused, .up 2, .up 0] 0 = (none, 5) := by decide
+example : (∀ x ∈ [Srv.gone, .refused, .up 7], x.live 5 = false) ∧ (Srv.up 2).live 5 = true := by decide
 
 end C06
